@@ -12,6 +12,7 @@ package c15
 import (
 	"encoding/json"
 	"fmt"
+	"reflect"
 	"runtime/debug"
 	"sort"
 	"strings"
@@ -231,7 +232,62 @@ func (ex *explorer) runCase(ti *typeInfo, vals []int, mask int) *caseFails {
 	// the reference sees a value of its own, so an encoder that modified its
 	// argument cannot hide behind a modified expectation
 	ref := encref.EncodeValue(ti.spec.NewValueOf(ti.typ, vals).Elem(), eo)
-	return ti.compare(ref, results, nil)
+	cf := ti.compare(ref, results, nil)
+	if len(ti.spec) == 1 && len(cf.set) == 0 && mask&(bOmitNil|bOmitEmpty|bCreateKey) == 0 {
+		// every encoder is right for *T (so no open finding is involved): **T next.
+		// The omit options and CreateKey are left out: the fall-back that handles
+		// the extra indirection applies them twice (when it decomposes and when it
+		// writes the decomposed tree), which is the subject of the open OmitEmpty
+		// findings; naming, tags, embedding and BytesAs must come out the same.
+		ex.ptrPtr(ti, vals, mask, o, results)
+	}
+	return cf
+}
+
+// ptrPtr: a pointer to a pointer to the struct denotes the same value as the
+// pointer: every encoder must give the same tree for **T as for *T (one-field
+// types only; the fall-back paths that handle the extra indirection are
+// separate pieces of code that have to pass the options on).
+func (ex *explorer) ptrPtr(ti *typeInfo, vals []int, mask int, o *ojg.Options, results []result) {
+	for vi, vr := range variants {
+		if !vr.ptr || results[vi].fail != "" {
+			continue
+		}
+		p := ti.spec.NewValueOf(ti.typ, vals)
+		pp := reflect.New(p.Type())
+		pp.Elem().Set(p)
+		e := &encoders[vr.enc]
+		opts := *o
+		opts.Indent = vr.indent
+		var text string
+		var err error
+		pv := func() (r any) {
+			defer func() { r = recover() }()
+			text, err = e.run(pp.Interface(), &opts)
+			return nil
+		}()
+		ex.r.evals++
+		obs := ""
+		switch {
+		case pv != nil:
+			obs = fmt.Sprintf("panic: %v", pv)
+		case err != nil:
+			obs = "error: " + err.Error()
+		default:
+			tree, perr := ex.r.parse(text, e.isSEN)
+			if perr != nil {
+				obs = "invalid output: " + text
+			} else if !reflect.DeepEqual(tree, results[vi].tree) {
+				obs = text
+			}
+		}
+		if obs != "" {
+			cs := caseT{Leg: "value", Spec: ti.spec, Type: ti.spec.String(), Vals: vals, Mask: mask, Opts: maskName(mask), Disc: "pointer-to-pointer-differs", Encs: []string{e.name}}
+			ex.c.Fail(core.Sig("value", "enc="+e.name, "pointer-to-pointer-differs", "tag="+gens.Tags[ti.spec[0].Tag].Name, "class="+gens.Kinds[ti.spec[0].Kind].Class,
+				"opts="+maskName(mask), fmt.Sprintf("indent=%d", vr.indent)), cs, 10,
+				"the tree written for the pointer: "+results[vi].text, obs)
+		}
+	}
 }
 
 // subCase evaluates a simpler type in isolation (fresh caches before and after).
